@@ -1,11 +1,12 @@
 import BppModel.Tree
+import BppModel.GraphOrient
 /-
 Model of src/Bpp/Graph/DAGraphImpl.h instantiated at GlobalGraph (`DAGlobalGraph`): the graph of
 `BppModel/Graph.lean` plus the two cached flags `isValid_` (:30) and `isRooted_` (:37).  Both are
-reset by the virtual `topologyHasChanged_()` (:360), which every structure-modifying primitive of
-GlobalGraph ends with; `isValid_` is written by `validate_` (:353) from `GlobalGraph::isDA`
-(GlobalGraph.cpp:691: repeated removal of the son-less nodes on a copy), `isRooted_` by `isRooted`
-(:229).  Not modelled: `rootAt` / `propagateDirection_` / `GlobalGraph::orientate`.
+reset by the virtual `topologyHasChanged_()` (:361), which every structure-modifying primitive of
+GlobalGraph ends with; `isValid_` is written by `validate_` (:354) from `GlobalGraph::isDA`
+(GlobalGraph.cpp:706: repeated removal of the son-less nodes on a copy), `isRooted_` by `isRooted`
+(:229); `rootAt` (:416) with `propagateDirection_` (:433) and `GlobalGraph::orientate` (BppModel/GraphOrient.lean).
 Line numbers: the library worktree with its `fix:` commits.
 -/
 namespace Bpp.Graph
@@ -23,12 +24,12 @@ namespace D
 /-- `DAGraphImpl(bool)` (:214): always directed -/
 def empty : D := { g := Graph.empty true }
 
-/-! ### isDA (GlobalGraph.cpp:691) -/
+/-! ### isDA (GlobalGraph.cpp:706) -/
 
-/-- the nodes without outgoing neighbour, in iteration order (:700-705, :719-724) -/
+/-- the nodes without outgoing neighbour, in iteration order (:719-724, :738-743) -/
 def sinks (g : G) : List Nat := (g.nodes.filter (fun p => p.2.out.length == 0)).map (·.1)
 
-/-- `gg.deleteNode(it2)` for every collected node (:709-712); `none` = deleteNode threw -/
+/-- `gg.deleteNode(it2)` for every collected node (:728-731); `none` = deleteNode threw -/
 def deleteAll : List Nat → G → Option G
   | [], g => some g
   | n :: rest, g =>
@@ -36,7 +37,7 @@ def deleteAll : List Nat → G → Option G
     | .ok _ g' => deleteAll rest g'
     | .exc _ => none
 
-/-- the loop of `isDA` (:707-725) on the copy `g`, `vL` the collected son-less nodes -/
+/-- the loop of `isDA` (:726-744) on the copy `g`, `vL` the collected son-less nodes -/
 def isDALoop : Nat → G → List Nat → TRes Bool
   | 0, _, _ => .fuel
   | fuel + 1, g, vL =>
@@ -93,19 +94,19 @@ def andThen {α β : Type} (r : GOut α × D) (f : α → D → GOut β × D) : 
   | .ok a _ => f a r.2
   | .exc g => (.exc g, r.2)
 
-/-- the explicit `topologyHasChanged_()` after a successful link (:382, :389, :279) -/
+/-- the explicit `topologyHasChanged_()` after a successful link (:385, :392, :279, :287) -/
 def touch (r : GOut Unit × D) : GOut Unit × D :=
   match r.1 with
   | .ok _ _ => (r.1, { r.2 with valid := false, rooted := false })
   | .exc _ => r
 
-/-- `addSon` (:379, :386) -/
+/-- `addSon` (:382, :389) -/
 def addSon (d : D) (n s : Nat) : GOut Unit × D := touch (unit (d.link n s))
 def addSonE (d : D) (n s e : Nat) : GOut Unit × D := touch (d.linkE n s e)
 /-- `addFather` (:276, :284): `isRooted_ = false` as well -/
 def addFather (d : D) (n f : Nat) : GOut Unit × D := touch (unit (d.link f n))
 def addFatherE (d : D) (n f e : Nat) : GOut Unit × D := touch (d.linkE f n e)
-/-- `removeSon` (:406) -/
+/-- `removeSon` (:409) -/
 def removeSon (d : D) (n s : Nat) : GOut Unit × D := unit (d.unlink n s)
 /-- `removeFather` (:303): the number of fathers is read first (throws for an absent node) -/
 def removeFather (d : D) (n f : Nat) : GOut Unit × D :=
@@ -115,7 +116,7 @@ def removeFather (d : D) (n f : Nat) : GOut Unit × D :=
     let d1 : D := if k = 1 then { d with rooted := false } else d
     unit (d1.unlink f n)
 
-/-- `removeSons` (:394) / `removeFathers` (:292): a snapshot of the neighbours, then one by one -/
+/-- `removeSons` (:397) / `removeFathers` (:292): a snapshot of the neighbours, then one by one -/
 def removeSons (d : D) (n : Nat) : GOut (List Nat) × D :=
   match d.g.outNeighbors n with
   | none => (.exc d.g, d)
@@ -147,8 +148,8 @@ def leavesUnder (g : G) : Nat → Nat → List Nat → TRes (List Nat)
         sons.foldl (fun acc s => match acc with | .ok f => leavesUnder g fuel s f | r => r) (.ok found)
       else .ok (found ++ [start])
 
-/-- `getBelowNodes` (:445) / `getBelowEdges` (:454): `mustBeValid_`, then the recursions of the tree
-container (same code, :464-483) -/
+/-- `getBelowNodes` (:449) / `getBelowEdges` (:458): `mustBeValid_`, then the recursions of the tree
+container (same code, :468-488) -/
 def getBelow (edges : Bool) (d : D) (n : Nat) : TRes (List Nat) × D :=
   let (v, d') := d.isValid
   match v with
@@ -159,6 +160,76 @@ def getBelow (edges : Bool) (d : D) (n : Nat) : TRes (List Nat) × D :=
   | .fuel => (.fuel, d')
   | .ub => (.ub, d')
 
+/-! ### re-rooting (`rootAt` :408, `propagateDirection_` :424) -/
+
+/-- `propagateDirection_` (:433): the fathers are read once (`getFathers`, throwing for an absent
+node); first loop: the recursive call on every father, in turn, each on the graph the former
+ones left; second loop: `switchNodes(father, node)` for the same snapshot of fathers (throws when
+the relation is no longer there or the reversed one exists already — after part of the work).
+The recursion takes fuel here: outcome `fuel` = it would not return. -/
+def propagate : Nat → D → Nat → TRes (GOut Unit × D)
+  | 0, _, _ => .fuel
+  | fuel + 1, d, n =>
+    match d.g.inNeighbors n with
+    | none => .ok (.exc d.g, d)
+    | some fats =>
+      let r1 : TRes (GOut Unit × D) := fats.foldl (fun acc f =>
+        match acc with
+        | .ok (.ok _ _, d') => propagate fuel d' f
+        | other => other) (.ok (.ok () d.g, d))
+      match r1 with
+      | .ok (.ok _ _, d1) =>
+        .ok (fats.foldl (fun acc f => andThen acc (fun _ d' => d'.lift (d'.g.switchNodes f n))) (.ok () d1.g, d1))
+      | other => other
+
+/-- did at least one `switchNodes` call of an `orientate` run succeed?  The recorded calls are replayed on the
+graph (a raising call changes nothing).  A successful call ends with `topologyHasChanged_()` even when it
+changes nothing in the tables (a loop `a -> a` switched with itself) -/
+def orientTouched (g : G) (switches : List (Nat × Nat)) : Bool :=
+  (switches.foldl (fun (acc : G × Bool) p =>
+    match acc.1.switchNodes p.1 p.2 with
+    | .ok _ g' => (g', true)
+    | .exc _ => acc) (g.makeDirected, false)).2
+
+/-- the `else` branch of `rootAt` (:423-428): `GlobalGraph::orientate()`: every `switchNodes` that succeeds in it
+ends with `topologyHasChanged_` (both flags reset); when none did — `orientate` raised at once or had
+nothing to turn — the tables and the flags are as before.  As repaired, nothing else happens: the
+rootedness flag is left to `isRooted()` (the unrepaired code set `isRooted_ = true`, although `orientate`
+leaves one father-less node per connected component) -/
+def orient (d : D) : GOut Unit × D :=
+  let r := d.g.orientRun
+  if orientTouched d.g r.switches then
+    let g' : G := { r.g with pending := [] }
+    (if r.raised then .exc g' else .ok () g', { g := g', valid := false, rooted := false })
+  else
+    let g0 : G := { d.g with pending := [] }
+    (if r.raised then .exc g0 else .ok () g0, { d with g := g0 })
+
+/-- the fuel given to `propagateDirection_` -/
+def propagateFuel (g : G) : Nat := g.nodes.length * g.nodes.length + 2
+
+/-- `rootAt` (:416): `setRoot` (throws for an absent node: nothing changed), then
+`isRooted() && isValid()` (short-circuit; both write their caches) chooses between turning round
+the relations above the new root and `orientate()` -/
+def rootAt (d : D) (n : Nat) : TRes (GOut Unit × D) :=
+  match d.setRoot n with
+  | (.exc g, d1) => .ok (.exc g, d1)
+  | (.ok _ _, d1) =>
+    let (r, d2) := d1.isRooted
+    if r then
+      let (v, d3) := d2.isValid
+      match v with
+      | .ok true => propagate (propagateFuel d3.g) d3 n
+      | .ok false => .ok d3.orient
+      | .exc => .ok (.exc d3.g, d3)
+      | .fuel => .fuel
+      | .ub => .ub
+    else .ok d2.orient
+
+/-- `getLeavesUnderNode` (:312) as the check exercises it: on a valid DAG only (no validity check in the
+C++: on a cycle reachable from the node the recursion does not return) -/
+def leavesUnderQ (d : D) (n : Nat) : TRes (List Nat) := leavesUnder d.g (d.g.nodes.length + 2) n []
+
 end D
 
 /-! ### histories -/
@@ -168,6 +239,7 @@ inductive DOp where
   | addSon (n s : Nat) | addSonE (n s e : Nat) | addFather (n f : Nat) | addFatherE (n f e : Nat)
   | removeSon (n s : Nat) | removeFather (n f : Nat) | removeSons (n : Nat) | removeFathers (n : Nat)
   | isValid | isRooted | getBelow (edges : Bool) (n : Nat)
+  | rootAt (n : Nat)
 deriving Repr
 
 namespace D
@@ -190,6 +262,7 @@ def step (d : D) : DOp → D
   | .isValid => d.isValid.2
   | .isRooted => d.isRooted.2
   | .getBelow e n => (d.getBelow e n).2
+  | .rootAt n => match d.rootAt n with | .ok r => r.2 | _ => d
 
 def run (d : D) (ops : List DOp) : D := ops.foldl step d
 end D
